@@ -178,9 +178,14 @@ func c03(c *Ctx) {
 	rep := c.Rep
 	mg := movegen.NewMoveGen()
 	ev := evaluator.NewEvaluator()
+	over24 := false // sticky per position object: unclamped phase sum exceeded 24 at some visited node
 	var exc func(p *position.Position, r *Rng, d int, lastNull bool, path []string, root string)
 	exc = func(p *position.Position, r *Rng, d int, lastNull bool, path []string, root string) {
 		pre := snapshot(p, ev, true)
+		if phaseSum(p) > 24 {
+			over24 = true
+			rep.Inc("nodes_phase_sum_over_24")
+		}
 		if len(path) >= 6 {
 			rep.Inc("depth_ge_6")
 		}
@@ -216,6 +221,9 @@ func c03(c *Ctx) {
 			isCapture := p.GetPiece(m.To()) != types.PieceNone
 			cls := moveClass(rc.MustFEN(pre.Fen), fromEng(m))
 			p.DoMove(m)
+			if phaseSum(p) > 24 {
+				over24 = true
+			}
 			legal := p.WasLegalMove()
 			if legal && d > 0 {
 				exc(p, r, d-1, false, append(path, m.StringUci()), root)
@@ -239,9 +247,9 @@ func c03(c *Ctx) {
 			case types.Castling:
 				rep.Inc("undo_castling")
 			}
-			if df := pre.Diff(post); len(df) > 0 {
-				rep.Viol("undo:"+firstField(df[0])+":"+cls, fmt.Sprintf("after DoMove(%s)+UndoMove on %s (nesting %d): %s", m.StringUci(), pre.Fen, len(path), strings.Join(df, "; ")),
-					map[string]interface{}{"root": root, "path": append(append([]string{}, path...), m.StringUci()), "fen": pre.Fen, "diff": df})
+			for _, f := range diffFields(pre.Diff(post)) {
+				rep.Viol("undo:"+firstField(f)+":"+cls+over24Tag(firstField(f), over24), fmt.Sprintf("after DoMove(%s)+UndoMove on %s (nesting %d): %s", m.StringUci(), pre.Fen, len(path), f),
+					map[string]interface{}{"root": root, "path": append(append([]string{}, path...), m.StringUci()), "fen": pre.Fen, "diff": f})
 			}
 		}
 		if !lastNull && d > 0 && !p.HasCheck() && r.Chance(0.3) {
@@ -251,9 +259,9 @@ func c03(c *Ctx) {
 			post := snapshot(p, ev, true)
 			rep.Eval(1)
 			rep.Inc("null_undo_checked")
-			if df := pre.Diff(post); len(df) > 0 {
-				rep.Viol("nullundo:"+firstField(df[0]), fmt.Sprintf("after DoNullMove+UndoNullMove on %s: %s", pre.Fen, strings.Join(df, "; ")),
-					map[string]interface{}{"root": root, "path": append(append([]string{}, path...), "null"), "fen": pre.Fen, "diff": df})
+			for _, f := range diffFields(pre.Diff(post)) {
+				rep.Viol("nullundo:"+firstField(f)+over24Tag(firstField(f), over24), fmt.Sprintf("after DoNullMove+UndoNullMove on %s: %s", pre.Fen, f),
+					map[string]interface{}{"root": root, "path": append(append([]string{}, path...), "null"), "fen": pre.Fen, "diff": f})
 			}
 		}
 	}
@@ -265,9 +273,13 @@ func c03(c *Ctx) {
 		gi++
 		r := SubRng(c.Seed, "c03/exc", gi*131+c.Shard)
 		p := engPos(g.Start.FEN())
+		over24 = false
 		exc(p, r, 2+r.Intn(7), false, nil, g.Start.FEN())
 		for i, st := range g.Steps {
 			p.DoMove(toEng(st.Move))
+			if phaseSum(p) > 24 {
+				over24 = true
+			}
 			if i%7 == 6 || st.Move.Kind != rc.Normal {
 				exc(p, r, 2+r.Intn(7), false, nil, g.Start.FEN()+" moves "+strings.Join(stepMoves(g.Steps, i+1), " "))
 			}
@@ -319,6 +331,7 @@ func (d *keyDict) add(p *position.Position, how string) {
 func c04(c *Ctx) {
 	rep := c.Rep
 	dict := &keyDict{rep: rep, byCanon: map[string]uint64{}, byKey: map[uint64]string{}}
+	over24 := false // sticky per game: unclamped phase sum exceeded 24 at some position of the game
 	checkSums := func(p *position.Position, ctx map[string]interface{}) {
 		var mat, np, pm, pe [2]int
 		gp := 0
@@ -355,11 +368,15 @@ func c04(c *Ctx) {
 			}
 		}
 		if p.GamePhase() != gp {
-			rep.Viol("sums:GamePhase", fmt.Sprintf("GamePhase()=%d, min(24, sum of phase values)=%d in %s", p.GamePhase(), gp, p.StringFen()), ctx)
+			rep.Viol("sums:GamePhase"+over24Tag("GamePhase", over24), fmt.Sprintf("GamePhase()=%d, min(24, sum of phase values)=%d in %s", p.GamePhase(), gp, p.StringFen()), ctx)
 		}
 	}
 	checkFresh := func(p *position.Position, how string, ctx map[string]interface{}) {
 		rep.Eval(1)
+		if phaseSum(p) > 24 {
+			over24 = true
+			rep.Inc("positions_phase_sum_over_24")
+		}
 		fen := p.StringFen()
 		fresh, err := position.NewPositionFen(fen)
 		if err != nil || fresh == nil {
@@ -367,9 +384,8 @@ func c04(c *Ctx) {
 			return
 		}
 		a, b := snapshot(p, nil, false), snapshot(fresh, nil, false)
-		if df := a.Diff(b); len(df) > 0 {
-			ctx["diff"] = df
-			rep.Viol("incremental:"+firstField(df[0])+":"+how, fmt.Sprintf("position reached by play differs from NewPositionFen(%q): %s", fen, strings.Join(df, "; ")), ctx)
+		for _, f := range diffFields(a.Diff(b)) {
+			rep.Viol("incremental:"+firstField(f)+over24Tag(firstField(f), over24), fmt.Sprintf("position reached by play (last move class %s) differs from NewPositionFen(%q): %s", how, fen, f), ctx)
 		}
 		checkSums(p, ctx)
 		dict.add(p, "play")
@@ -383,6 +399,7 @@ func c04(c *Ctx) {
 	sampled := 0
 	forEachGame(c, "c04", nPlay, 110, nSynth, func(g Game) {
 		p := engPos(g.Start.FEN())
+		over24 = false
 		checkFresh(p, "start", map[string]interface{}{"start": g.Start.FEN()})
 		for i, st := range g.Steps {
 			officers := 0
